@@ -23,7 +23,10 @@ RULE = (
     "case = (rank vector = weak ordering, label vector, value table kind, score dtype, label dtype, direction, "
     "eval_fdr); scores = strictly increasing table[ranks]. Enumerated part: every weak ordering of n<=4 (quick) / "
     "n<=6 (thorough) x every labelling x both directions. Non-trivial: n>=3, both labels present and (a tie group "
-    "of size>=2 or a decoy ranked strictly better than some target). Distinct = distinct canonical JSON of the case."
+    "of size>=2 or a decoy ranked strictly better than some target). Distinct = distinct canonical JSON of the case. "
+    "Half of the full cases also build a LinearPsmDataset (every fourth of those an OnDiskPsmDataset on a Parquet file, "
+    "labels stored as 0/1 or -1/1) with features {scores, rescaled scores, negated scores, constant} in one of four "
+    "asymmetric subsets and check the starting labels returned by (_)find_best_feature."
 )
 ASSUMPTIONS = [
     "float32 storage of the FDR inside tdc is the only admitted deviation: |q - exact| <= 2.5e-7 * exact",
@@ -196,6 +199,100 @@ def _check_q(q, ref, scores_py, desc, tag):
             require(q[a] <= q[b], f"monotone:{tag}", f"q decreases as score worsens: {q[a]} -> {q[b]}")
 
 
+def _check_labels(got, labels, exp, amb, tag, what):
+    n = len(labels)
+    require(isinstance(got, np.ndarray) and got.shape == (n,), f"{tag}-shape", f"{what}: {got!r}")
+    for i in range(n):
+        g = got[i]
+        if not labels[i]:
+            require(g == -1, tag, f"{what}: decoy {i} labelled {g}")
+        elif i in amb:
+            require(g in (0, 1), tag, f"{what}: target {i} labelled {g}")
+        else:
+            require(g == exp[i], tag, f"{what}: target {i} labelled {g}, the q-value rule gives {exp[i]}")
+
+
+def _call_best(fn, thr, sig):
+    def inner():
+        try:
+            return fn(thr)
+        except RuntimeError as exc:
+            if "No PSMs found" in str(exc):
+                return exc
+            raise
+
+    return guarded(inner, sig=sig)
+
+
+def _check_best_feature(case, mds, sf, scores2, tb, labels, ref, thr, desc, classes):
+    """(_)find_best_feature returns (feature, positives, labels, direction); the labels are the starting
+    labels of training.  They must be the q-value labels of that feature in that direction, agree with the
+    reported count, and no other feature/direction may accept more targets."""
+    import pandas as pd
+
+    from core import scratch_dir
+
+    n = len(labels)
+    sf_py = [float(x) for x in sf]
+    other = tdc_ref(sf_py, labels, not desc)
+    const = tdc_ref([0.0] * n, labels, True)
+    # order of sf in direction `desc`: ref; in the other direction: other
+    cand = {}
+    for name, flip in (("fa", False), ("fb", False), ("fneg", True)):
+        for d in (True, False):
+            same = (d == desc) != flip
+            cand[(name, d)] = labels_ref(ref if same else other, labels, thr)
+    for d in (True, False):
+        cand[("fconst", d)] = labels_ref(const, labels, thr)
+    feats = {"fa": sf, "fb": scores2.astype(np.float64), "fneg": -sf, "fconst": np.zeros(n)}
+    order = [["fa", "fb", "fconst"], ["fconst", "fneg"], ["fneg", "fconst", "fa"], ["fb"]][case["perm"] // 2 % 4]
+    counts = {k: sum(1 for i, v in enumerate(e) if labels[i] and v == 1 and i not in a) for k, (e, a) in cand.items() if k[0] in order}
+    any_amb = any(a for k, (e, a) in cand.items() if k[0] in order)
+    best = max(counts.values())
+
+    def verify(res, what):
+        if isinstance(res, RuntimeError):
+            require(any_amb or best == 0, "best-feature-missing", f"{what}: 'No PSMs found' although a feature accepts {best} targets at {thr}")
+            return
+        feat, npos, new_labels, d = res
+        require((feat, bool(d)) in counts, "best-feature-name", f"{what}: returned feature {feat!r} desc={d!r}")
+        exp, amb = cand[(feat, bool(d))]
+        new_labels = np.asarray(new_labels)
+        _check_labels(new_labels, labels, exp, amb, "best-feature-labels", f"{what} feature={feat} desc={d} thr={thr}")
+        require(int(npos) == int((new_labels == 1).sum()), "best-feature-count", f"{what}: reports {npos} positives, labels hold {(new_labels == 1).sum()}")
+        if not any_amb:
+            require(int(npos) == best, "best-feature-not-best", f"{what}: {feat}/{d} accepts {npos}, best candidate accepts {best}")
+        if not d:
+            classes.append("best-feature-lower-is-better")
+
+    df = pd.DataFrame({"SpecId": ["s%d" % i for i in range(n)], "Label": tb, "ScanNr": np.arange(n),
+                       "ExpMass": np.arange(n) + 1.0})
+    for f in order:
+        df[f] = feats[f]
+    df["Peptide"] = ["P%d" % i for i in range(n)]
+    df["Proteins"] = "prot"
+    ds = guarded(mds.LinearPsmDataset, df, "Label", "ScanNr", "Peptide", feature_columns=list(order), sig="LinearPsmDataset")
+    res = _call_best(ds._find_best_feature, thr, "_find_best_feature")
+    verify(res, "LinearPsmDataset._find_best_feature")
+    done = 1
+    if case["perm"] % 8 == 0:
+        import datagen
+
+        raw = case["perm"] % 16 == 0
+        with scratch_dir() as tmp:
+            fdf = df.copy()
+            fdf["Label"] = np.where(tb, 1, -1) if raw else tb.astype(np.int64)
+            path = tmp / "best.parquet"
+            fdf.to_parquet(path, index=False)
+            meta = {"key_cols": ["ScanNr", "ExpMass"], "features": list(order), "levels": ["Peptide"]}
+            ods = datagen.build_ondisk(path, fdf, meta)
+            res = _call_best(ods.find_best_feature, thr, "find_best_feature")
+            verify(res, f"OnDiskPsmDataset.find_best_feature (Label stored as {'-1/1' if raw else '0/1'})")
+        classes.append("best-feature-ondisk")
+        done += 1
+    return done
+
+
 def check(case):
     from mokapot import qvalues
     from mokapot import dataset as mds
@@ -280,6 +377,10 @@ def check(case):
             got_d = guarded(ds._update_labels, sf, thr, desc, sig="LinearPsmDataset._update_labels")
             require(np.array_equal(got_d, got), "labels-dataset", "LinearPsmDataset._update_labels differs")
             counters["labels_compared"] += n
+
+    # --- starting labels of the best feature (what Model.fit trains from) -----
+    if not light and any(labels) and not all(labels) and case["perm"] % 2 == 0:
+        counters["best_feature_labels"] = _check_best_feature(case, mds, sf, scores2, tb, labels, ref, thr, desc, classes)
 
     # --- classification -----------------------------------------------------
     has_t, has_d = any(labels), not all(labels)
